@@ -573,16 +573,28 @@ func logsFirst(xs []*S) bool {
 	return false
 }
 
-func hasExit(xs []*S) bool {
+// hasExit: the list contains a statement that leaves the enclosing loop
+// (a break nested in a switch or an inner loop targets that, not the enclosing loop).
+func hasExit(xs []*S) bool { return hasExit2(xs, true) }
+
+func hasExit2(xs []*S, breakCounts bool) bool {
 	for _, s := range xs {
-		if s.K == "break" || s.K == "return" {
+		if s.K == "return" || (s.K == "break" && breakCounts) {
 			return true
 		}
-		if hasExit(s.A) || hasExit(s.B) {
-			return true
-		}
-		for _, c := range s.Cases {
-			if hasExit(c) {
+		switch s.K {
+		case "for":
+			if hasExit2(s.A, false) {
+				return true
+			}
+		case "switch":
+			for _, c := range s.Cases {
+				if hasExit2(c, false) {
+					return true
+				}
+			}
+		default:
+			if hasExit2(s.A, breakCounts) || hasExit2(s.B, breakCounts) {
 				return true
 			}
 		}
